@@ -366,7 +366,7 @@ def run(ctx):
             )
     from . import c20_prov
 
-    c20_prov.run(ctx, index, graph, effects, wm, reach)
+    ctx.section(c20_prov.run, ctx, index, graph, effects, wm, reach)
     # note on find_spec
     fmf = index.funcs.get("cdd.shared.pure_utils.find_module_filepath")
     if fmf is not None and fmf.qual in reach:
